@@ -28,7 +28,8 @@ RULE = ("exhaustive: every set of distinct strict orders over 3 alternatives (2^
         "n <= 15: score ties), uniformly random sets of orders (m <= 6, n <= 7), a block dedicated to the n < m path "
         "(m in 5..8, 3 <= n < m: walks, walk+1, stars, orders near a common base); large planted single-crossing profiles (m <= 12, "
         "n <= 40) and large negatives (planted profile + embedded refuted core). "
-        "non-trivial = at least 3 distinct orders")
+        "about half of the structured / random cases are relabelled to id sets containing 0 (falsy), ~8 % to huge ids "
+        "(10**18, 2**64+1, 2**100); non-trivial = at least 3 distinct orders")
 EXHAUSTIVE = {"quick": "m=3: all subsets of the 6 orders in every storage order (ids 0..2 and 1..3); m=4: all sets of "
                        "<= 4 distinct orders, every storage order for n <= 3, {sorted, reversed, shuffled} for n = 4; "
                        "m=5: all sets of <= 2 orders in both storage orders",
@@ -150,6 +151,31 @@ def switchback(rng, chain, i, j):
     x = list(last)
     x[k], x[k + 1] = x[k + 1], x[k]
     return x if x not in chain else None
+
+
+HUGE_IDS = [10 ** 18, 10 ** 18 + 1, 2 ** 64 + 1, 2 ** 63, 2 ** 64, 2 ** 31, 2 ** 32 + 1, 10 ** 30 + 7, 999999999999999989,
+            2 ** 100, 2 ** 64 - 1, 2 ** 53 + 1]
+
+
+def relabel(rl, c, huge=False):
+    """injective relabelling of the alternatives of a case to an id set containing 0 (and, if huge, very large ids);
+    the verdicts are invariant (theorem sc_relabel) but the case is judged afresh by the model anyway"""
+    pl = c["payload"]
+    alts = pl[0]
+    m = len(alts)
+    if huge:
+        pool = rl.sample(HUGE_IDS, min(m - 1, len(HUGE_IDS)))
+        pool += rl.sample(range(1, 50), m - 1 - len(pool))
+    else:
+        pool = rl.sample(range(1, 3 * m + 2), m - 1)
+    new = [0] + pool
+    rl.shuffle(new)
+    f = dict(zip(alts, new))
+    pl[0] = [f[a] for a in alts]
+    pl[1] = [[f[a] for a in o] for o in pl[1]]
+    if c["op"] == "c04.core":
+        pl[3] = [f[a] for a in pl[3]]
+    c["tags"]["ids"] = "huge+0" if huge else "with0"
 
 
 def mults(rng, n, heavy):
@@ -420,6 +446,14 @@ def generate(tier, seed):
     for k, cs_ in enumerate(out):
         if cs_["tags"].get("gen") or k % 8 == 0:
             cs_["tags"]["helper"] = 1
+    # ---- alternative ids: every structured / random case is relabelled with probability ~0.5 to an id set that
+    #      contains 0 (falsy in Python), and ~8 % of them to a set with huge ids (10**18, 2**64 + 1, ...)
+    rl = random.Random(1000003 * seed + 404)
+    for cs_ in out:
+        if cs_["tags"].get("gen") and cs_["tags"].get("gen") != "corpus":
+            u = rl.random()
+            if u < 0.5:
+                relabel(rl, cs_, huge=(u < 0.08))
     return out
 
 
@@ -570,6 +604,7 @@ def stats(c, r, m):
             mm_ = _named(c, r, m)
             lab.append("info: _is_ordered_profile_single_crossing(stored order) %s sc_seq_check [%s]"
                        % ("==" if r[3] == mm_.get("seqcheck") else "!=", "accepted" if mm_.get("seqcheck") else "rejected"))
+    lab.append("ids: " + ("contain 0" if 0 in pl[0] else "all positive") + (", huge (>= 2**31)" if max(pl[0]) >= 2 ** 31 else ""))
     if any(x > 1 for x in pl[2]):
         lab.append("multiplicities > 1")
     return lab
